@@ -442,4 +442,162 @@ theorem mem_mkSys {s : Shared} {progs : List (List Act)} {t : Thread Shared Loca
   exact ⟨rfl, hp⟩
 
 
+/-! ### the random source under a lock -/
+
+/-- an action is the locked draw, or leaves both the generator position and the thread's draw alone -/
+def DrawOrInert (a : Act) : Prop :=
+  a = aRngDrawLocked ∨ ∀ s l, (a.step s l).1.rng = s.rng ∧ (a.step s l).2.draw = l.draw
+
+/-- the draws handed out so far are below the generator position and pairwise distinct -/
+def DrawsOk (s : Shared) (ts : List (Thread Shared Local)) : Prop :=
+  (∀ (i : Nat) (t : Thread Shared Local) (d : Nat), ts[i]? = some t → t.loc.draw = some d → d < s.rng) ∧
+  (∀ (i j : Nat) (ti tj : Thread Shared Local) (d : Nat), i ≠ j → ts[i]? = some ti → ts[j]? = some tj → ti.loc.draw = some d → tj.loc.draw ≠ some d)
+
+theorem stepSys_drawsOk {s : Shared} {ts : List (Thread Shared Local)}
+    (hacts : ∀ t ∈ ts, ∀ a ∈ t.todo, DrawOrInert a) (hok : DrawsOk s ts) (i : Nat) :
+    DrawsOk (stepSys ⟨s, ts⟩ i).shared (stepSys ⟨s, ts⟩ i).threads ∧
+    ∀ t ∈ (stepSys ⟨s, ts⟩ i).threads, ∀ a ∈ t.todo, DrawOrInert a := by
+  cases hi : ts[i]? with
+  | none => simp only [stepSys, hi]; exact ⟨hok, hacts⟩
+  | some t =>
+    have hil : i < ts.length := (List.getElem?_eq_some_iff.mp hi).1
+    have htm : t ∈ ts := List.mem_of_getElem? hi
+    have hacts' : ∀ u ∈ ts.set i (stepThread s t).2, ∀ a ∈ u.todo, DrawOrInert a := by
+      intro u hu a ha
+      rcases List.mem_or_eq_of_mem_set hu with hu | hu
+      · exact hacts u hu a ha
+      · subst hu; exact hacts t htm a (stepThread_todo_sub s t a ha)
+    simp only [stepSys, hi]
+    refine ⟨?_, hacts'⟩
+    -- what the step did to the generator and to thread i's draw
+    have hcase : ((stepThread s t).1.rng = s.rng ∧ (stepThread s t).2.loc.draw = t.loc.draw) ∨
+        ((stepThread s t).1.rng = s.rng + 1 ∧ (stepThread s t).2.loc.draw = some s.rng) := by
+      unfold stepThread
+      split
+      · exact Or.inl ⟨rfl, rfl⟩
+      · rename_i a rest hq
+        rcases hacts t htm a (by rw [hq]; exact List.mem_cons_self) with rfl | h
+        · exact Or.inr ⟨rfl, rfl⟩
+        · exact Or.inl (h s t.loc)
+    have get_i : (ts.set i (stepThread s t).2)[i]? = some (stepThread s t).2 := by simp [hil]
+    have get_ne : ∀ j, j ≠ i → (ts.set i (stepThread s t).2)[j]? = ts[j]? :=
+      fun j hj => List.getElem?_set_ne (Ne.symm hj)
+    rcases hcase with ⟨hr, hd⟩ | ⟨hr, hd⟩
+    · -- inert step
+      refine ⟨?_, ?_⟩
+      · intro j u d hj hdu
+        rw [hr]
+        by_cases e : j = i
+        · subst e; rw [get_i] at hj; cases hj
+          exact hok.1 j t d hi (hd ▸ hdu)
+        · rw [get_ne j e] at hj; exact hok.1 j u d hj hdu
+      · intro j k uj uk d hjk hj hk hdj
+        by_cases ej : j = i
+        · subst ej; rw [get_i] at hj; cases hj
+          rw [get_ne k (Ne.symm hjk)] at hk
+          exact hok.2 j k t uk d hjk hi hk (hd ▸ hdj)
+        · rw [get_ne j ej] at hj
+          by_cases ek : k = i
+          · subst ek; rw [get_i] at hk; cases hk
+            rw [hd]; exact hok.2 j k uj t d hjk hj hi hdj
+          · rw [get_ne k ek] at hk; exact hok.2 j k uj uk d hjk hj hk hdj
+    · -- the locked draw: thread i now holds `s.rng`, the generator stands at `s.rng + 1`
+      refine ⟨?_, ?_⟩
+      · intro j u d hj hdu
+        rw [hr]
+        by_cases e : j = i
+        · subst e; rw [get_i] at hj; cases hj
+          rw [hd] at hdu; cases hdu; exact Nat.lt_succ_self _
+        · rw [get_ne j e] at hj
+          exact Nat.lt_succ_of_lt (hok.1 j u d hj hdu)
+      · intro j k uj uk d hjk hj hk hdj
+        by_cases ej : j = i
+        · subst ej; rw [get_i] at hj; cases hj
+          rw [hd] at hdj; cases hdj
+          rw [get_ne k (Ne.symm hjk)] at hk
+          intro hdk
+          exact absurd (hok.1 k uk _ hk hdk) (Nat.lt_irrefl _)
+        · rw [get_ne j ej] at hj
+          by_cases ek : k = i
+          · subst ek; rw [get_i] at hk; cases hk
+            rw [hd]; intro heq; cases heq
+            exact absurd (hok.1 j uj _ hj hdj) (Nat.lt_irrefl _)
+          · rw [get_ne k ek] at hk; exact hok.2 j k uj uk d hjk hj hk hdj
+
+theorem run_drawsOk : ∀ (sched : Schedule) (s : Shared) (ts : List (Thread Shared Local)),
+    (∀ t ∈ ts, ∀ a ∈ t.todo, DrawOrInert a) → DrawsOk s ts →
+    DrawsOk (run ⟨s, ts⟩ sched).shared (run ⟨s, ts⟩ sched).threads := by
+  intro sched
+  induction sched with
+  | nil => intro s ts _ h; exact h
+  | cons i rest ih =>
+    intro s ts ha hok
+    rw [run_cons]
+    have h := stepSys_drawsOk ha hok i
+    exact ih _ _ h.2 h.1
+
+
+theorem guarded_keepsDraw {f : Shared → Local → Shared × Local}
+    (h : ∀ s l, (f s l).2.draw = l.draw) : ∀ s l, ((guarded f).step s l).2.draw = l.draw := by
+  intro s l; simp only [guarded]; split
+  · rfl
+  · exact h s l
+
+syntax "keeps_draw" : tactic
+macro_rules
+  | `(tactic| keeps_draw) => `(tactic|
+      (apply guarded_keepsDraw
+       intro s l
+       repeat' split
+       all_goals rfl))
+
+theorem aRoute_keepsDraw (C : Consts) (q : Req) : ∀ s l, ((aRoute C q).step s l).2.draw = l.draw := by keeps_draw
+theorem aInvoke_keepsDraw (C : Consts) (q : Req) : ∀ s l, ((aInvoke C q).step s l).2.draw = l.draw := by keeps_draw
+theorem aCopyErr_keepsDraw : ∀ s l, (aCopyErr.step s l).2.draw = l.draw := by keeps_draw
+theorem aReadStatus_keepsDraw (C : Consts) : ∀ s l, ((aReadStatus C).step s l).2.draw = l.draw := by keeps_draw
+theorem aTestMessage_keepsDraw : ∀ s l, (aTestMessage.step s l).2.draw = l.draw := by keeps_draw
+theorem aFillRead_keepsDraw (C : Consts) (fixed : Bool) : ∀ s l, ((aFillRead C fixed).step s l).2.draw = l.draw := by keeps_draw
+theorem aFillWrite_fixed_keepsDraw : ∀ s l, ((aFillWrite true).step s l).2.draw = l.draw := by
+  apply guarded_keepsDraw
+  intro s l
+  split
+  · simp only [if_true, setLocalErrMessage]; split <;> rfl
+  · rfl
+theorem aMarshalStatus_keepsDraw : ∀ s l, (aMarshalStatus.step s l).2.draw = l.draw := by keeps_draw
+theorem aMarshalMessage_keepsDraw : ∀ s l, (aMarshalMessage.step s l).2.draw = l.draw := by keeps_draw
+
+theorem inert_of_blind {a : Act} (hb : BlindAct a) (hd : ∀ s l, (a.step s l).2.draw = l.draw) : DrawOrInert a :=
+  Or.inr fun s l => ⟨by rw [hb.1 s l], hd s l⟩
+
+theorem serveProg_fixed_drawOrInert (C : Consts) (q : Req) : ∀ a ∈ serveProg C true q, DrawOrInert a := by
+  intro a ha
+  have hb := serveProg_fixed_blind C q a ha
+  simp only [serveProg, if_true, List.cons_append, List.nil_append, List.mem_cons, List.not_mem_nil, or_false] at ha
+  rcases ha with rfl | rfl | rfl | rfl | rfl | rfl | rfl | rfl | rfl
+  · exact inert_of_blind hb (aRoute_keepsDraw C q)
+  · exact inert_of_blind hb (aInvoke_keepsDraw C q)
+  · exact inert_of_blind hb aCopyErr_keepsDraw
+  · exact inert_of_blind hb (aReadStatus_keepsDraw C)
+  · exact inert_of_blind hb aTestMessage_keepsDraw
+  · exact inert_of_blind hb (aFillRead_keepsDraw C true)
+  · exact inert_of_blind hb aFillWrite_fixed_keepsDraw
+  · exact inert_of_blind hb aMarshalStatus_keepsDraw
+  · exact inert_of_blind hb aMarshalMessage_keepsDraw
+
+theorem loadProg_drawOrInert (ty : Nat) : ∀ a ∈ loadProg ty, DrawOrInert a := by
+  intro a ha
+  have hb := loadProg_blind ty a ha
+  simp only [loadProg, List.mem_cons, List.not_mem_nil, or_false] at ha
+  subst ha
+  exact inert_of_blind hb (fun _ _ => rfl)
+
+theorem resolveProg_locked_drawOrInert : ∀ a ∈ resolveProg true, DrawOrInert a := by
+  intro a ha
+  simp only [resolveProg, if_true, List.cons_append, List.nil_append, List.mem_cons, List.not_mem_nil, or_false] at ha
+  rcases ha with rfl | rfl | rfl
+  · exact Or.inr fun _ _ => ⟨rfl, rfl⟩
+  · exact Or.inl rfl
+  · refine Or.inr fun s l => ?_
+    simp only [aChoose]; split <;> exact ⟨rfl, rfl⟩
+
 end Restli.SharedCells
